@@ -387,3 +387,44 @@ def transitions(ctx, P, rule="TREE-STEP"):
     F = Facts(P, fn)
     ok = bool(F.calls_to("tsk_tree_seek_from_null")) or bool(F.calls_to("tsk_tree_seek_from_null_index"))
     ctx.ob(rule, "tsk_tree_seek|dispatch", ok, tu.loc(fn.node), "null-state seeks go through seek_from_null")
+
+
+def edge_call_args(ctx, P, rule="TREE-EDGE-ARGS", floor=4):
+    ctx.rule(rule, "every call that applies an edge to a tree names ONE edge: tsk_tree_insert_edge(self, <parent>[e], <child>[e], e) "
+                   "and tsk_tree_remove_edge(self, <parent>[e], <child>[e]) subscript the edge table's parent and child columns "
+                   "with the same expression e, the edge id recorded for the child is that same e, and e is read from the "
+                   "insertion / removal order (never the position j in that order)")
+    tu = P.tus["trees"]
+    n = 0
+    for fn in tu.funcs.values():
+        if fn.body is None:
+            continue
+        k = 0
+        for c in calls(fn.body):
+            nm = callee(c)
+            if nm not in ("tsk_tree_insert_edge", "tsk_tree_remove_edge"):
+                continue
+            a = [strip(x) for x in c.kids[1:]]
+            key = "%s|%s@%d" % (fn.name, nm, k)
+            k += 1
+            n += 1
+            if len(a) < 3 or a[1] is None or a[2] is None or a[1].k != "ArraySubscriptExpr" or a[2].k != "ArraySubscriptExpr":
+                ctx.ob(rule, key, False, tu.loc(c), "parent / child arguments are not column subscripts: %s" % [estr(x) for x in c.kids[1:]])
+                continue
+            pcol, pidx = estr(a[1].kids[0]), estr(a[1].kids[1])
+            ccol, cidx = estr(a[2].kids[0]), estr(a[2].kids[1])
+            ok = "parent" in pcol and "child" in ccol and pidx == cidx
+            why = "%s[%s], %s[%s]" % (pcol, pidx, ccol, cidx)
+            if ok and nm == "tsk_tree_insert_edge":
+                eid = estr(a[3]) if len(a) > 3 and a[3] is not None else None
+                ok = eid == pidx
+                why += ", edge id %s" % eid
+            if ok:
+                # e itself must come out of an order array: e = order[j]
+                d = [x for x in walk(fn.body) if x.k == "BinaryOperator" and x.op == "=" and estr(x.kids[0]) == pidx]
+                ok = bool(d) and all(strip(x.kids[1]) is not None and strip(x.kids[1]).k == "ArraySubscriptExpr" and
+                                     re.search(r"order|^[IO]$", estr(strip(x.kids[1]).kids[0])) for x in d)
+                why += "; %s = %s" % (pidx, sorted({estr(x.kids[1]) for x in d}))
+            ctx.ob(rule, key, ok, tu.loc(c), why)
+    ctx.floor(rule, floor)
+    return n
